@@ -65,6 +65,6 @@ Definition gen_full_type_msgid (t : ttype) : str :=
 Definition gen_full_msgids : list (str * bool) :=
   map (fun t => (gen_full_type_msgid t, true)) all_ttypes ++
   map (fun m => (m, false)) [gen_full_msg_long; gen_full_msg_short; gen_full_msg_yes; gen_full_msg_no; gen_full_msg_inout; gen_full_msg_tax; gen_full_msg_summary; gen_full_msg_legend].
-Definition gen_full_clears_row_map : bool := false.
-Definition gen_full_summary_link_guarded : bool := false.
-Definition gen_ods_single_method_by_value : bool := false.
+Definition gen_full_clears_row_map : bool := true.
+Definition gen_full_summary_link_guarded : bool := true.
+Definition gen_ods_single_method_by_value : bool := true.
